@@ -1006,3 +1006,23 @@ def bigface_pair(rng):
     if rng.random() < 0.5:
         return s2, s1, dict(meta, kinds=[k2, k1], dir=nrm.tolist())
     return s1, s2, meta
+
+
+def flat_ellipsoid_prim_pair(rng):
+    """an unwrapped primitive pair with a very flat ellipsoid (one radius 0.01..0.04, the others 0.2..1) and a sphere /
+    capsule / ellipsoid of size 0.2..1, both placed in a box of side 3 (near, touching or overlapping): the class in which
+    the accelerated Nesterov loop leaves its accelerated phase through the convergence check with a full simplex"""
+    s1 = nw.gen_collider(rng, "ellipsoid", "random", spread=1.5, margin_prob=0.0)
+    rr = [10 ** rng.uniform(-2, -1.4), rng.uniform(0.2, 1.0), rng.uniform(0.2, 1.0)]
+    rng.shuffle(rr)
+    s1["radii"] = rr
+    k2 = rng.choice(["capsule", "sphere", "ellipsoid"])
+    s2 = nw.gen_collider(rng, k2, "random", spread=1.5, margin_prob=0.0, sizes=[rng.uniform(0.2, 1.0) for _ in range(4)])
+    if k2 == "ellipsoid" and rng.random() < 0.5:
+        r2 = [10 ** rng.uniform(-2, -1.4), rng.uniform(0.2, 1.0), rng.uniform(0.2, 1.0)]
+        rng.shuffle(r2)
+        s2["radii"] = r2
+    meta = dict(stream="flat_ellipsoid_prims", kinds=["ellipsoid", k2])
+    if rng.random() < 0.5:
+        return s2, s1, dict(meta, kinds=[k2, "ellipsoid"])
+    return s1, s2, meta
